@@ -499,13 +499,13 @@ func c01Run(in *c01In) c01Obs {
 // ---------------------------------------------------------------- generators
 
 var (
-	c01Hosts     = []string{"a.com", "b.com", "a.co", "www.a.com", "x.org"}
-	c01HostREs   = []string{`^a\.`, `\.com$`, `^[ab]\.com$`, `^www\..*$`, `.*`, `^a\.com$`}
-	c01ReqHosts  = []string{"a.com", "b.com", "a.co", "www.a.com", "x.org", "a.com:80", "b.com:8080", "[::1]:80", "[::1]", "a.com:", "a.com:80:90", "", "A.com", "a.comm", "www.a.com:443", "[a.com]:80", "a.com]:80"}
-	c01Paths     = []string{"/a", "/ab", "/a/b", "/b", "/", "/a/"}
-	c01Prefixes  = []string{"/a", "/a/", "/", "/b", "/ab"}
-	c01PathREs   = []string{`^/a(.*)$`, `/([a-z]+)/([0-9]+)`, `^/b$`, `^/[ab]+$`, `a`, `^/(a|b)/`, `^/a/[^/]+$`, `^/a/(.*)$`}
-	c01ReqPaths  = []string{"/a", "/ab", "/a/b", "/b", "/", "/a/", "/a/b/1", "/x/12", "", "/ab/12", "/c", "/abc", "/B", "/a/12", "/b/", "/a/A", "/a%b", "/a?b"}
+	c01Hosts    = []string{"a.com", "b.com", "a.co", "www.a.com", "x.org"}
+	c01HostREs  = []string{`^a\.`, `\.com$`, `^[ab]\.com$`, `^www\..*$`, `.*`, `^a\.com$`}
+	c01ReqHosts = []string{"a.com", "b.com", "a.co", "www.a.com", "x.org", "a.com:80", "b.com:8080", "[::1]:80", "[::1]", "a.com:", "a.com:80:90", "", "A.com", "a.comm", "www.a.com:443", "[a.com]:80", "a.com]:80"}
+	c01Paths    = []string{"/a", "/ab", "/a/b", "/b", "/", "/a/"}
+	c01Prefixes = []string{"/a", "/a/", "/", "/b", "/ab"}
+	c01PathREs  = []string{`^/a(.*)$`, `/([a-z]+)/([0-9]+)`, `^/b$`, `^/[ab]+$`, `a`, `^/(a|b)/`, `^/a/[^/]+$`, `^/a/(.*)$`}
+	c01ReqPaths = []string{"/a", "/ab", "/a/b", "/b", "/", "/a/", "/a/b/1", "/x/12", "", "/ab/12", "/c", "/abc", "/B", "/a/12", "/b/", "/a/A", "/a%b", "/a?b"}
 	// the full list the schema's httpmethod-array format allows (pkg/v/format.go), in its order
 	c01Methods   = []string{"GET", "HEAD", "POST", "PUT", "PATCH", "DELETE", "CONNECT", "OPTIONS", "TRACE"}
 	c01ReqMeths  = []string{"GET", "HEAD", "POST", "PUT", "PATCH", "DELETE", "CONNECT", "OPTIONS", "TRACE", "mGET", "get", "mPOST", "PURGE"}
